@@ -76,14 +76,13 @@ Theorem c05_gate_else : forall w a n,
    jwe_get_zip w (pv_of_allowed a) (PStr n) = Err (EJose UnsupportedAlgorithmError)).
 Proof. exact gate_else_four. Qed.
 
-(* names that are not strings never pass, whatever the allow-list value is (the
-   property only fixes the error class for well-typed names: unhashable names
-   give the TypeError of `name not in dict`) *)
+(* names that are not strings (None, numbers, bytes, lists, dicts ...) never pass,
+   whatever the allow-list value is: the unsupported-algorithm error *)
 Theorem c05_gate_nonstring : forall w allowed name, is_str name = false ->
-  (jws_get_alg w allowed name = Err (EJose UnsupportedAlgorithmError) \/ jws_get_alg w allowed name = Err EType) /\
-  (jwe_get_alg w allowed name = Err (EJose UnsupportedAlgorithmError) \/ jwe_get_alg w allowed name = Err EType) /\
-  (jwe_get_enc w allowed name = Err (EJose UnsupportedAlgorithmError) \/ jwe_get_enc w allowed name = Err EType) /\
-  (jwe_get_zip w allowed name = Err (EJose UnsupportedAlgorithmError) \/ jwe_get_zip w allowed name = Err EType).
+  jws_get_alg w allowed name = Err (EJose UnsupportedAlgorithmError) /\
+  jwe_get_alg w allowed name = Err (EJose UnsupportedAlgorithmError) /\
+  jwe_get_enc w allowed name = Err (EJose UnsupportedAlgorithmError) /\
+  jwe_get_zip w allowed name = Err (EJose UnsupportedAlgorithmError).
 Proof. exact gate_nonstr_four. Qed.
 
 (* even for an ill-typed allow-list value (a str, a dict, a number ...) only
@@ -215,15 +214,15 @@ Proof. exact register_matters. Qed.
 
 (* instances meeting the hypotheses / both sides of the characterisations:
    "none" passes the gate when listed (and is the NoneAlgModel row); a supported
-   but unlisted name, an unknown listed name, an unhashable and a hashable
-   non-string name are refused; a JWE call passes with alg, enc and zip listed and
+   but unlisted name, an unknown listed name, a list and a number
+   as name are refused; a JWE call passes with alg, enc and zip listed and
    fails when zip is not; verification with "none" allowed is a BadSignatureError
    while a genuine HS512 token verifies *)
 Example c05_instances :
   (exists m, jws_get_alg w0 (PList [pname "none"; pname "XX"]) (pname "none") = Ok m /\ is_none_row m = true) /\
   jws_get_alg w0 (PList [pname "HS384"]) (pname "HS256") = Err (EJose UnsupportedAlgorithmError) /\
   jws_get_alg w0 (PList [pname "XX"]) (pname "XX") = Err (EJose UnsupportedAlgorithmError) /\
-  jws_get_alg w0 PNone (PList [pname "HS256"]) = Err EType /\
+  jws_get_alg w0 PNone (PList [pname "HS256"]) = Err (EJose UnsupportedAlgorithmError) /\
   jws_get_alg w0 PNone (PInt 1) = Err (EJose UnsupportedAlgorithmError) /\
   (exists t, jwe_entry w0 (PList [pname "A128GCMKW"; pname "A128GCM"; pname "DEF"]) (Some PNone)
                (pname "A128GCM") [pname "A128GCMKW"] (Some (pname "DEF")) = Ok t) /\
